@@ -120,6 +120,13 @@ func (c *scriptConn) respawns() int {
 	return c.respawn
 }
 
+// hasWaiter reports whether some goroutine is blocked in Read right now.
+func (c *scriptConn) hasWaiter() bool {
+	c.mu.Lock()
+	defer c.mu.Unlock()
+	return c.waiting
+}
+
 // proxySession implements base.ClientSession over two script connections.
 type proxySession struct {
 	ctx    context.Context
@@ -205,12 +212,13 @@ func runProxySession(proxy base.Proxy, s *proxySession, segs []seg, clientID []b
 	conn := map[byte]*scriptConn{'C': s.client, 'D': s.db}
 	stuck := false
 	const clientSide = "Client-AcraServer"
-	// readerGone: nobody will read side x any more
+	// readerGone: nobody will read side x any more. The PostgreSQL proxy restarts its client loop itself after an
+	// SSL-deny answer; such a reader is recognised by being blocked in Read after the original loop has ended.
 	readerGone := func(x byte) bool {
 		if alive[x] {
 			return false
 		}
-		if x == 'C' && s.client.respawns() > 0 && !respawnDead {
+		if x == 'C' && s.client.hasWaiter() && !respawnDead {
 			return false
 		}
 		return true
@@ -262,12 +270,18 @@ func runProxySession(proxy base.Proxy, s *proxySession, segs []seg, clientID []b
 		}
 		conn[sg.side].feed(sg.data)
 		waitSettled(sg.side)
+		if sg.side == 'D' && !alive['C'] && s.client.respawns() > 0 && !respawnDead {
+			// give a client loop restarted by the database side a moment to reach its first Read
+			for i := 0; i < 20 && !s.client.hasWaiter(); i++ {
+				time.Sleep(2 * time.Millisecond)
+			}
+		}
 	}
 	s.client.finish()
 	s.db.finish()
 	t := time.NewTimer(10 * time.Second)
 	defer t.Stop()
-	for (alive['C'] || alive['D'] || !readerGone('C')) && !stuck {
+	for (alive['C'] || alive['D']) && !stuck {
 		select {
 		case e := <-done:
 			note(e)
@@ -275,6 +289,14 @@ func runProxySession(proxy base.Proxy, s *proxySession, segs []seg, clientID []b
 			noteErr(e)
 		case <-t.C:
 			stuck = true
+		}
+	}
+	if s.client.respawns() > 0 && !respawnDead && !stuck {
+		// a restarted client loop reports its end (EOF) on errCh only
+		select {
+		case e := <-errCh:
+			noteErr(e)
+		case <-time.After(200 * time.Millisecond):
 		}
 	}
 	if firstPanic != nil {
